@@ -22,7 +22,7 @@ RULE = (
 REQUIRED = ["batch_entries_compared", "batches/cache_on", "batches/cache_off", "batches/tiny_cache", "batches/parallel_entries",
             "batches/parallel_rules", "cache_coherence_evals", "lookalike_pairs_in_batches", "repeated_substrates_in_batches",
             "validate_smiles_compared", "validate_records_where_tautomer_flag_matters", "validate_records_where_aromaticity_flag_matters", "balance_compared", "cluster_batches_compared", "syncrn_compared",
-            "batches/adversarial_id", "nonempty_entry_results"]
+            "batches/adversarial_id", "nonempty_entry_results", "batches/explicit_mode"]
 ASSUMPTIONS = [
     "reference for one entry: SynReactor on smiles_to_graph(entry) for each rule graph in order, flattened, order-preserving de-duplication",
     "the cache-coherence monitor only sees calls made in this process (entry_n_jobs=1); worker processes are covered by the output differential",
@@ -40,6 +40,10 @@ RULES_IMPLICIT = [
     "[CH3:1][C:2](=[O:3])[OH:4].[CH3:5][NH2:6]>>[CH3:1][C:2](=[O:3])[NH:6][CH3:5].[OH2:4]",
     "[CH3:1][Br:2].[CH3:3][OH:4]>>[CH3:1][O:4][CH3:3].[BrH:2]",
     "[CH3:1][CH:2]=[O:3].[CH3:4][NH2:5]>>[CH3:1][CH:2]=[N:5][CH3:4].[OH2:3]",
+]
+RULES_EXPLICIT = [
+    "[CH3:1][C:2](=[O:3])[CH3:4].[N:5]([H:7])([H:8])[CH3:6]>>[CH3:1][C:2](=[N:5][CH3:6])[CH3:4].[O:3]([H:7])[H:8]",
+    "[CH3:1][Cl:2].[N:3]([H:4])([H:5])[H:6]>>[CH3:1][N:3]([H:5])[H:6].[Cl:2][H:4]",
 ]
 SUBSTRATES = ["CC(=O)O.CO", "CC(=O)[O-].CO", "CC(=O)O.OC", "OC(=O)C.CO", "CC(=O)O.CN", "CCBr.CO", "CC=O.CN", "CC(=O)O.OCCO",
               "CC(=O)O.CCO", "CC(=O)O.OCC", "NCC(=O)O.CO", "[NH3+]CC(=O)[O-].CO", "CC(=O)O.CO.CN", "OC(=O)CC(=O)O.CO", "CCO.CCBr",
@@ -108,13 +112,14 @@ def check_batch(ctx, entries, rules, cfg, tag):
     from synkit.Synthesis.Reactor.batch_reactor import BatchReactor
 
     invert = cfg.get("invert", False)
-    kw = {k: v for k, v in cfg.items() if k not in ("invert", "adversarial", "refit", "graphs")}
+    kw = {k: v for k, v in cfg.items() if k not in ("invert", "adversarial", "refit", "graphs", "mode")}
     rule_graphs = BatchReactor._ensure_graph_rules(rules)
     if cfg.get("adversarial"):
         ctx.count("batches/adversarial_id")
         set_adversarial(True, ctx.seed * 17 + ctx.evaluations)
     try:
-        b = BatchReactor(entries, strategy="bt", explicit_h=False, implicit_temp=True, enable_logging=True, **kw)
+        eh, it = (True, False) if cfg.get("mode") == "explicit" else (False, True)
+        b = BatchReactor(entries, strategy="bt", explicit_h=eh, implicit_temp=it, enable_logging=True, **kw)
         res = b.fit(rule_graphs if cfg.get("graphs") else rules, invert=invert)
         if cfg.get("refit"):
             res = b.fit(rules, invert=invert)  # same reactor again: rule graphs are re-created, cache survives
@@ -128,7 +133,7 @@ def check_batch(ctx, entries, rules, cfg, tag):
         return
     nonempty = 0
     for i, (e, r) in enumerate(zip(entries, res)):
-        ref = reference(e, rule_graphs, invert, "bt", False, True)
+        ref = reference(e, rule_graphs, invert, "bt", *((True, False) if cfg.get("mode") == "explicit" else (False, True)))
         got = r.get(key)
         ctx.count("batch_entries_compared")
         if got is None or canon_out(got) != canon_out(ref) or r.get("count") != len(got):
@@ -333,6 +338,12 @@ def run(ctx):
             if rng.random() < 0.5:
                 rng.shuffle(ents)
             check_batch(ctx, ents, rules, cfg, "batches of small and corpus substrates")
+    # explicit-hydrogen rules (hydrogens written as atoms), default explicit_h=True
+    if not ctx.out_of_time(0.7):
+        ents = [rng.choice(["CC(C)=O.NC", "CC(=O)C.CN", "CCl.N", "ClC.N", "CC(C)=O.NCC", "CCCl.N"]) for _ in range(rng.randint(5, 9))]
+        for cfg in ({"mode": "explicit"}, {"mode": "explicit", "cache_maxsize": 1}, {"mode": "explicit", "invert": True}):
+            ctx.count("batches/explicit_mode")
+            check_batch(ctx, list(ents), RULES_EXPLICIT, cfg, "explicit-hydrogen rules")
     # one long look-alike batch with the real id(): graphs are created and dropped -> address reuse pressure
     long_entries = [rng.choice(SUBSTRATES[:8]) for _ in range(150 if ctx.quick else 1500)]
     import time
